@@ -95,7 +95,14 @@ def check_C16(res, tier, seed, replay):
             inputs.append((g, 1)); inputs.append((gens.permuted(rng, g), 1))
     for g in gens.families(rng, big=(tier != 'quick'))[::3]:
         inputs.append((gens.union(g, {'n': 3, 'edges': []}), 1))
-    run_comp(res, tier, seed, replay, 'forest', inputs)
+    # more than 2^8 / 2^16 vertices or edges (an index or counter narrower than size_t wraps there): families described by
+    # parameters, decided by the closed form Components!ForestFamViol
+    fam = [(f, a, 0) for f in ('path', 'star', 'cycle') for a in (255, 256, 257, 258)] + [('path', 65536, 0), ('path', 65537, 0), ('path', 65538, 0), ('star', 65537, 0),
+           ('cycle', 65535, 0), ('cycle', 65536, 0), ('cycle', 65537, 0), ('twocycles', 32768, 0), ('twocycles', 40000, 0), ('matching', 70000, 100), ('matching', 65537, 32768),
+           ('matching', 300, 0), ('matching', 65536, 1)]
+    fl = [vlib.graph_line(900000 + i, 0, [], 1, extra=['fam=%s' % f, 'a=%d' % a, 'b=%d' % b]) for i, (f, a, b) in enumerate(fam)]
+    run_comp(res, tier, seed, replay, 'forest', inputs, extra_lines=fl)
+    res.cov['large_families'] = ['%s(%d,%d)' % f for f in fam]
     res.cov['distinct_nontrivial'] = len({canon(g) for g, _ in inputs if len(g['edges']) >= 1})
     res.cov['rule'] = 'ForestIndex built on every input; non-trivial = distinct graph with at least one edge'
 
